@@ -31,6 +31,7 @@ import Scico.Proofs.StepsStrong
 import Scico.Proofs.StepsOpial
 import Scico.Proofs.StepsOpial2
 import Scico.Proofs.StepsExamples2
+import Scico.Proofs.StepsPDHGAlpha
 
 set_option linter.unusedSectionVars false
 
@@ -575,6 +576,32 @@ theorem C03_ladmm_converges_findim [FiniteDimensional ℝ X] [FiniteDimensional 
         Filter.atTop (nhds wb) :=
   ladmm_converges_findim H hk s
 
+/-- PDHG with ANY extrapolation parameter `alpha` (documented range `[0,1]`), linear `C`: the Fejér inequality of
+    `C03_pdhg_fejer` holds up to the explicit defect `2(1−α)⟪z⁺ − z*, C(x − x⁺)⟫`, which vanishes for `alpha = 1` -/
+theorem C03_pdhg_alpha_defect (p : PDHGParams ℝ X Z) (F : Fn X) (xs : X) (zs : Z) (H : PDHGHypA p F xs zs)
+    (s : PDHGState X Z) :
+    pdM p.C p.tau p.sigma ((pdhgSpecStep p s).x - xs) ((pdhgSpecStep p s).z - zs)
+        + pdM p.C p.tau p.sigma (s.x - (pdhgSpecStep p s).x) (s.z - (pdhgSpecStep p s).z)
+      ≤ pdM p.C p.tau p.sigma (s.x - xs) (s.z - zs)
+        + 2 * (1 - p.alpha) * inner ℝ ((pdhgSpecStep p s).z - zs) (p.C (s.x - (pdhgSpecStep p s).x)) :=
+  pdhg_fejer_step_alpha p F xs zs H s
+
+/-- … and the defect is real: NEGATIVE result for `alpha = 0`, which is inside the documented range.  For the convex
+    problem `f = 0`, `g = ι_{0}` (`g* = 0`), `C = I` on ℝ with `τ = σ = 1/2` (`τσ‖C‖² = 1/4 < 1`, all documented constraints
+    met, unique saddle point `(0,0)`): the `M`-distance to the saddle point INCREASES in the step from `(0,1)`, and
+    `x_k² + z_k² ≥ (3/5)(x_0² + z_0²)` for every `k` and every start — no orbit converges.  Hence for merely convex
+    problems the property's convergence claim cannot hold for PDHG with `alpha = 0` (it does for `alpha = 1`,
+    `C03_pdhg_converges_findim`, and for strongly convex `f` the case `alpha < 1` is open here). -/
+theorem C03_pdhg_alpha0_no_convergence :
+    (PDHGHypA pdhgA0 (Fn.ofReal (fun _ : ℝ => (0 : ℝ))) 0 0 ∧ PDHGRange pdhgA0 1 (1 / 2) ∧ pdhgA0.alpha = 0) ∧
+    pdM pdhgA0.C pdhgA0.tau pdhgA0.sigma (0 - 0) (1 - 0)
+      < pdM pdhgA0.C pdhgA0.tau pdhgA0.sigma
+          ((pdhgSpecStep pdhgA0 { x := 0, xOld := 0, z := 1, zOld := 1 }).x - 0)
+          ((pdhgSpecStep pdhgA0 { x := 0, xOld := 0, z := 1, zOld := 1 }).z - 0) ∧
+    (∀ (s : PDHGState ℝ ℝ) (k : Nat),
+      3 / 5 * (s.x ^ 2 + s.z ^ 2) ≤ (iter (pdhgSpecStep pdhgA0) k s).x ^ 2 + (iter (pdhgSpecStep pdhgA0) k s).z ^ 2) :=
+  ⟨pdhgA0_hyp, pdhgA0_not_fejer, pdhgA0_no_convergence⟩
+
 /-- PGM: the objective is non-increasing along the whole trajectory (base step-size object, `L ≥` Lipschitz constant) -/
 theorem C03_pgm_objective_traj (p : PGMParams Unit ℝ X) {G : Fn X} {L : ℝ} (h : PGMHyp p G L)
     (hd : DescentLemma p.f p.gradf L) (s : PGMState Unit ℝ X) (hsL : s.L = L) (k : Nat) :
@@ -626,6 +653,10 @@ example (y0 : X) : PDHGHyp (exPDHG y0) (halfSq y0) y0 0 ∧ PDHGRange (exPDHG y0
 example (y0 : X) : PADMMHyp (exPADMM y0) (halfSq y0) zeroFn y0 y0 0 := exPADMM_hyp y0
 example (y0 : X) : LADMMHyp (exLADMM y0) (halfSq y0) zeroFn y0 0 := exLADMM_hyp y0
 example (y0 : X) : FISTAHyp (exPGM y0) zeroFn 1 := exPGM_fista y0
+-- `PDHGHypA` (any alpha) on the α = 1 instance as well
+example (y0 : X) : PDHGHypA (exPDHG y0) (halfSq y0) y0 0 :=
+  ⟨(exPDHG_hyp y0).lin, (exPDHG_hyp y0).tau, (exPDHG_hyp y0).sigma, (exPDHG_hyp y0).add, fun _ _ => rfl,
+   (exPDHG_hyp y0).adj, (exPDHG_hyp y0).proxf, (exPDHG_hyp y0).kktx, (exPDHG_hyp y0).dual⟩
 -- the finite-dimensional convergence theorems on the instances (saddle point `(y0, 0)`, KKT point `(y0, y0, 0)`)
 example [FiniteDimensional ℝ X] (y0 : X) :
     PDHGConvHyp (exPDHG y0) (halfSq y0) (Fn.indicator ({0} : Set X)) 1 (1 / 2) ∧
